@@ -71,7 +71,7 @@ def run(c):
     def compare(obs, tag):
         """Evaluate model and oracle inside Coq on the observed cases; returns number of disagreements."""
         direct = [o for o in obs if o["k"] == "direct"]
-        engine = [o for o in obs if o["k"] in ("engine", "comment")]
+        engine = [o for o in obs if o["k"] in ("engine", "comment", "suggonly")]
         # panics are failures of the property outright
         for o in direct:
             c.count()
@@ -86,7 +86,7 @@ def run(c):
             elif "text" in o and o["text"] != "":
                 c.nontriv(("engine", classify(len(o["text"]), o["L"] or 60), len(o["text"]), o["L"]))
         dcases = [o for o in direct if not o.get("panic")]
-        ecases = [o for o in engine if not o.get("panic") and "msg" in o and (o.get("text", "") != "" or o["k"] == "comment")]
+        ecases = [o for o in engine if not o.get("panic") and "msg" in o and (o.get("text", "") != "" or o["k"] != "engine")]
         for o in obs:
             if o["k"] == "count":
                 c.count()
@@ -118,13 +118,16 @@ def run(c):
                 src.append("Definition bad_model : list Z := [].")
             src.append("Definition bad_oracle := map (fun c => fst (fst (fst c))) (filter (fun c => match c with (i, n, L, r) => "
                        "if L =? 0 then false else negb (opt_ok (shown_oracle (mk (Z.to_nat n)) L) r) end) dcases).")
-            src.append("Definition ecases : list (Z * bytes * Z * bytes * bytes * bool) := [")
+            src.append("Definition ecases : list (Z * bytes * Z * bytes * bytes * Z) := [")
             # message template is V=$x;W=$$;  -> shown(x) and shown(whole match)
             src.append(";\n".join("(%d, %s, %d, %s, %s, %s)" % (i, coq_bytes(o["text"].encode()), o["L"], coq_bytes(o["msg"].encode()),
-                                                                coq_bytes(o["sugg"].encode()), "true" if o["k"] == "comment" else "false") for i, o in esh))
+                                                                coq_bytes(o["sugg"].encode()), {"engine": "0", "comment": "1", "suggonly": "2"}[o["k"]]) for i, o in esh))
             src.append("].")
-            src.append("Definition whole (cm : bool) (t : bytes) : bytes := if cm then [47;47;99;49;53;58] ++ t else [112;114;111;98;101;40] ++ t ++ [41].")
-            src.append("Definition exp_msg (cm : bool) (t : bytes) (L : Z) : option bytes := match shown_oracle t L, shown_oracle (whole cm t) L with "
+            src.append("Definition whole (cm : Z) (t : bytes) : bytes := if cm =? 1 then [47;47;99;49;53;58] ++ t else [112;114;111;98;101;40] ++ t ++ [41].")
+            # kind 2 = rule with Suggest() only: the message is "suggestion: " ++ shown(x); the replacement is x itself
+            src.append("Definition exp_msg (cm : Z) (t : bytes) (L : Z) : option bytes := if cm =? 2 then "
+                       "match shown_oracle t L with Some a => Some ([115;117;103;103;101;115;116;105;111;110;58;32] ++ a) | None => None end else "
+                       "match shown_oracle t L, shown_oracle (whole cm t) L with "
                        "Some a, Some b => Some ([86;61] ++ a ++ [59;87;61] ++ b ++ [59]) | _, _ => None end.")
             src.append("Definition bad_engine := map (fun c => fst (fst (fst (fst (fst c))))) (filter (fun c => match c with (i, t, L, m, s, cm) => "
                        "negb (opt_ok (exp_msg cm t L) m) || negb (bytes_eqb s t) end) ecases).")
